@@ -201,6 +201,23 @@ def run(ctx):
                 vb, cap = next(iter(var_blocks)), next(iter(caps))
                 votes = {"in-first"} if (vb == 0) == (cap == "in") else {"out-first"}
                 constructs.append((entries[0][1], "mode rows of %s: variable block %d with cap_%s" % (mname, vb, cap), votes, ()))
+                # the right-hand side appended right after the block is stacked: if it names a capacity, it is the block's own
+                last = max(s.lineno for _, s in entries)
+                fr = local_roles(fn)
+                nxt = [s for s in stmts if last < s.lineno <= last + 4 and isinstance(s, ast.Assign) and fr.get(au.U(s.targets[0])) == "b"
+                       and isinstance(s.value, ast.Call) and au.method_name(s.value) == "hstack"]
+                if nxt:
+                    a0 = nxt[0].value.args[0]
+                    app = a0.elts[1] if isinstance(a0, (ast.Tuple, ast.List)) and len(a0.elts) == 2 else None
+                    if app is not None:
+                        i_, o_ = re_.atoms(app, nxt[0])
+                        rcap = {"in"} if "cap_in" in i_ else (set() | ({"out"} if "cap_out" in o_ else set()))
+                        if rcap:
+                            total += 1
+                            ctx.ob("C02.c", fn, "mode rows of %s: right-hand side %s" % (mname, au.short(app, 30)), rcap == {cap},
+                                   "the rows put cap_%s on the mode binary but their right-hand side uses cap_%s: for asymmetric rates the "
+                                   "mode rows no longer switch the other direction off (charge and discharge in one step although "
+                                   "no_simult_in_out is set)" % (cap, next(iter(rcap))), node=nxt[0])
         # ---- verdicts: majority orientation of the class
         tally = {"in-first": 0, "out-first": 0}
         for _, _, votes, _ in constructs:
